@@ -277,6 +277,21 @@ func genRegScenario(seed int64, id int, nops int, crash bool) regScenario {
 	} else if rng.Intn(3) == 0 {
 		sc.Probes = "prefix"
 	}
+	if id%4 == 1 && nch >= 8 {
+		// file-cursor patterns at the start of a fresh region: a chunk that fills its sector run exactly, then reads of
+		// OTHER chunks / padding, then the neighbouring operations (a read of the chunk right behind it, a new chunk
+		// allocated right behind the last one, an in-place rewrite of the chunk right behind) - whatever the
+		// implementation remembers about where the file cursor is must not matter
+		w := func(c, ln int) regOp { return regOp{Kind: "write", C: c, Len: ln} }
+		rd := func(c int) regOp { return regOp{Kind: "read", C: c} }
+		sc.Ops = append(sc.Ops,
+			w(0, 4092), w(1, 100), w(2, 2*4096-4), w(3, 300),
+			rd(0), regOp{Kind: "pad"}, rd(1), rd(0),
+			rd(2), regOp{Kind: "pad"}, rd(3),
+			w(0, 4092), rd(2), w(1, 120), rd(1), rd(0),
+			w(5, 4092), rd(1), w(6, 200), rd(6), rd(5),
+			w(7, 3*4096-4), rd(3), w(4, 64), rd(4), rd(7))
+	}
 	hot := rng.Intn(nch) // a chunk that is rewritten often with changing sizes -> fragmentation and reuse
 	big := 0
 	for i := 0; i < nops; i++ {
